@@ -1,6 +1,10 @@
 package checks
 
 import (
+	"strconv"
+	"regexp"
+	"net/url"
+	"crypto/sha512"
 	"crypto/md5"
 	"crypto/sha1"
 	"crypto/sha256"
@@ -23,7 +27,7 @@ var c06Domain = []struct {
 	Name string
 	V    any
 }{
-	{"NULL", nil}, {"''", ""}, {"'abc'", "abc"}, {"'12'", "12"}, {"-1", -1}, {"0", 0}, {"1.5", 1.5}, {"1e20", 1e20}, {"2", 2}, {"7", 7}, {"-2.5", -2.5},
+	{"NULL", nil}, {"''", ""}, {"'abc'", "abc"}, {"'12'", "12"}, {"-1", -1}, {"0", 0}, {"1.5", 1.5}, {"1e20", 1e20}, {"2", 2}, {"7", 7}, {"-2.5", -2.5}, {"65", 65}, {"'a b&c'", "a b&c"}, {"'ff'", "ff"}, {"[1,2,2]", []any{1, 2, 2}},
 	{"true", true}, {"[]", []any{}}, {"[1,2]", []any{1, 2}}, {"{k:1}", map[string]any{"k": 1}},
 }
 
@@ -229,6 +233,258 @@ func c06RefValue(name string, args []any) (any, bool) {
 	case "array_length":
 		if a, ok := args[0].([]any); ok {
 			return float64(len(a)), true
+		}
+	case "tan", "asin", "acos", "atan", "sinh", "cosh", "tanh", "log":
+		x, ok := n(0)
+		if !ok || len(args) != 1 || math.Abs(x) > 1e6 {
+			return nil, false
+		}
+		switch name {
+		case "tan":
+			return math.Tan(x), true
+		case "atan":
+			return math.Atan(x), true
+		case "sinh":
+			if math.Abs(x) > 20 {
+				return nil, false
+			}
+			return math.Sinh(x), true
+		case "cosh":
+			if math.Abs(x) > 20 {
+				return nil, false
+			}
+			return math.Cosh(x), true
+		case "tanh":
+			return math.Tanh(x), true
+		case "asin", "acos":
+			if x < -1 || x > 1 {
+				return nil, false
+			}
+			if name == "asin" {
+				return math.Asin(x), true
+			}
+			return math.Acos(x), true
+		case "log": // registered as "base-10 logarithm"
+			if x <= 0 {
+				return nil, false
+			}
+			return math.Log10(x), true
+		}
+	case "bitand", "bitor", "bitxor", "bitnot":
+		ix := func(i int) (int64, bool) {
+			x, ok := n(i)
+			if !ok || x != math.Trunc(x) || math.Abs(x) > 1e9 {
+				return 0, false
+			}
+			if _, isStr := args[i].(string); isStr {
+				return 0, false
+			}
+			return int64(x), true
+		}
+		a, ok := ix(0)
+		if !ok {
+			return nil, false
+		}
+		if name == "bitnot" {
+			return float64(^a), true
+		}
+		b, ok := ix(1)
+		if !ok {
+			return nil, false
+		}
+		switch name {
+		case "bitand":
+			return float64(a & b), true
+		case "bitor":
+			return float64(a | b), true
+		}
+		return float64(a ^ b), true
+	case "sha512":
+		if v, ok := s(0); ok {
+			h := sha512.Sum512([]byte(v))
+			return hex.EncodeToString(h[:]), true
+		}
+	case "null_if":
+		// NULL if both values are equal, else the first one; only same-kind scalar pairs are claimed
+		a, aok := args[0].(string)
+		b, bok := args[1].(string)
+		if aok && bok {
+			if a == b {
+				return nil, true
+			}
+			return a, true
+		}
+		x, xok := n(0)
+		y, yok := n(1)
+		if _, isStr := args[0].(string); xok && yok && !isStr {
+			if _, isStr2 := args[1].(string); !isStr2 {
+				if x == y {
+					return nil, true
+				}
+				return x, true
+			}
+		}
+	case "chr":
+		if x, ok := n(0); ok && x == math.Trunc(x) && x >= 32 && x <= 126 {
+			if _, isStr := args[0].(string); !isStr {
+				return string(rune(int(x))), true
+			}
+		}
+	case "hex2dec":
+		if v, ok := s(0); ok && v != "" {
+			if x, err := strconv.ParseInt(v, 16, 64); err == nil {
+				return float64(x), true
+			}
+		}
+	case "lpad", "rpad":
+		str, ok := s(0)
+		l, lok := n(1)
+		pad := " "
+		if len(args) == 3 {
+			p, pok := s(2)
+			if !pok || p == "" {
+				return nil, false
+			}
+			pad = p
+		}
+		if _, isStr := args[1].(string); !ok || !lok || isStr || l != math.Trunc(l) || l > 64 || l < 0 || int(l) <= len([]rune(str)) {
+			return nil, false // a target not longer than the text (truncate or keep?) is not claimed
+		}
+		fill := ""
+		for len([]rune(fill)) < int(l)-len([]rune(str)) {
+			fill += pad
+		}
+		fill = string([]rune(fill)[:int(l)-len([]rune(str))])
+		if name == "lpad" {
+			return fill + str, true
+		}
+		return str + fill, true
+	case "trunc":
+		x, ok := n(0)
+		p, pok := n(1)
+		_, s0 := args[0].(string)
+		_, s1 := args[1].(string)
+		if !ok || !pok || s0 || s1 || p != math.Trunc(p) || p < 0 || p > 6 || math.Abs(x) > 1e9 {
+			return nil, false
+		}
+		f := math.Pow(10, p)
+		return math.Trunc(x*f) / f, true
+	case "split":
+		str, ok := s(0)
+		d, dok := s(1)
+		if ok && dok && d != "" {
+			var out []any
+			for _, part := range strings.Split(str, d) {
+				out = append(out, part)
+			}
+			return out, true
+		}
+	case "url_encode":
+		if v, ok := s(0); ok {
+			return url.QueryEscape(v), true
+		}
+	case "url_decode":
+		if v, ok := s(0); ok {
+			if d, err := url.QueryUnescape(v); err == nil {
+				return d, true
+			}
+		}
+	case "regexp_matches", "regexp_substring", "regexp_replace":
+		str, ok := s(0)
+		pat, pok := s(1)
+		if !ok || !pok {
+			return nil, false
+		}
+		re, err := regexp.Compile(pat)
+		if err != nil {
+			return nil, false
+		}
+		switch name {
+		case "regexp_matches":
+			return re.MatchString(str), true
+		case "regexp_substring":
+			if !re.MatchString(str) {
+				return nil, false // no match: NULL or '' - not claimed
+			}
+			return re.FindString(str), true
+		default:
+			rep, rok := s(2)
+			if !rok || strings.Contains(rep, "$") {
+				return nil, false
+			}
+			return re.ReplaceAllString(str, rep), true
+		}
+	case "is_numeric":
+		switch args[0].(type) {
+		case int, int64, float64:
+			return true, true
+		case bool, []any, map[string]any:
+			return false, true
+		}
+	case "substring":
+		// rune offsets counted from 0 (the implementation's own description); only in-range, non-negative arguments
+		str, ok := s(0)
+		st, sok := n(1)
+		if _, isStr := args[1].(string); !ok || !sok || isStr || st != math.Trunc(st) || st < 0 || st > 1e6 || int(st) > len([]rune(str)) {
+			return nil, false
+		}
+		r := []rune(str)
+		if len(args) == 2 {
+			return string(r[int(st):]), true
+		}
+		l, lok := n(2)
+		if _, isStr := args[2].(string); !lok || isStr || l != math.Trunc(l) || l < 0 || l > 1e6 || int(st)+int(l) > len(r) {
+			return nil, false
+		}
+		return string(r[int(st) : int(st)+int(l)]), true
+	case "array_contains", "array_position", "array_remove":
+		arr, ok := args[0].([]any)
+		if !ok {
+			return nil, false
+		}
+		if _, isNum := ref.ToNum(args[1]); !isNum {
+			return nil, false
+		}
+		if _, isStr := args[1].(string); isStr {
+			return nil, false
+		}
+		x, _ := n(1)
+		pos := 0
+		var rest []any
+		for i, e := range arr {
+			if f, ok := ref.ToNum(e); ok && f == x {
+				if pos == 0 {
+					pos = i + 1
+				}
+				continue
+			}
+			rest = append(rest, e)
+		}
+		switch name {
+		case "array_contains":
+			return pos > 0, true
+		case "array_position":
+			if pos == 0 {
+				return nil, false // absent: 0, -1 or NULL - not claimed
+			}
+			return float64(pos), true
+		default:
+			if len(rest) == 0 {
+				return nil, false
+			}
+			return rest, true
+		}
+	case "array_distinct":
+		if arr, ok := args[0].([]any); ok && len(arr) > 0 {
+			var out []any
+			seen := map[string]bool{}
+			for _, e := range arr {
+				if k := js(e); !seen[k] {
+					seen[k] = true
+					out = append(out, e)
+				}
+			}
+			return out, true
 		}
 	case "greatest", "least":
 		best := 0.0
